@@ -185,14 +185,14 @@ func c9Once(c *Ctx) {
 		st := oi.named.Underlying().(*types.Struct)
 		for i := 0; i < st.NumFields(); i++ {
 			f := st.Field(i)
-			if !f.Embedded() || !pub[f.Name()] {
+			if !f.Embedded() || !pub[FN(f)] {
 				continue
 			}
 			ms := c.SSA.MethodSets.MethodSet(types.NewPointer(oi.named))
 			for k := 0; k < ms.Len(); k++ {
 				sel := ms.At(k)
 				if len(sel.Index()) > 1 && sel.Index()[0] == i {
-					c.Bad("R9.2", tn, "promoted/"+sel.Obj().Name(), f.Pos(), "method %s is promoted through the embedded field %s, which is overwritten inside the Once: the promoted wrapper reads it with no synchronisation", sel.Obj().Name(), f.Name())
+					c.Bad("R9.2", tn, "promoted/"+sel.Obj().Name(), f.Pos(), "method %s is promoted through the embedded field %s, which is overwritten inside the Once: the promoted wrapper reads it with no synchronisation", sel.Obj().Name(), FN(f))
 				}
 			}
 		}
@@ -260,8 +260,8 @@ func c9Immutable(c *Ctx) {
 			skip["buff"] = true // zapio.Writer is documented as not safe for concurrent use; only Log/Level must stay untouched
 		}
 		for i := 0; i < st.NumFields(); i++ {
-			if !skip[st.Field(i).Name()] {
-				all[st.Field(i).Name()] = true
+			if !skip[FN(st.Field(i))] {
+				all[FN(st.Field(i))] = true
 			}
 		}
 		n := 0
@@ -315,7 +315,7 @@ func c9Atomics(c *Ctx) {
 	var ft []string
 	for i := 0; i < st.NumFields(); i++ {
 		t := TypeName(st.Field(i).Type())
-		ft = append(ft, st.Field(i).Name()+" "+t)
+		ft = append(ft, FN(st.Field(i))+" "+t)
 		if !strings.HasPrefix(t, "atomic.") {
 			ok = false
 		}
@@ -349,7 +349,7 @@ func c9Atomics(c *Ctx) {
 				if strings.HasPrefix(TypeName(u.Field(i).Type()), "atomic.") {
 					continue
 				}
-				walk(u.Field(i).Type(), path+"."+u.Field(i).Name(), d+1)
+				walk(u.Field(i).Type(), path+"."+FN(u.Field(i)), d+1)
 			}
 		case *types.Pointer, *types.Slice, *types.Map, *types.Chan, *types.Interface:
 			ptrCells = append(ptrCells, path+" "+TypeName(t))
@@ -573,7 +573,7 @@ func encoderTouches(fn *ssa.Function, seen map[*ssa.Function]bool, depth int) []
 					}
 				}
 				d := Desc(args[0])
-				if (d == recv.Name()+".buf" || d == recv.Name()+".jsonEncoder.buf" || d == recv.Name()+".reflectBuf" || d == recv.Name()+".jsonEncoder.reflectBuf") && cf.Pkg() != nil && cf.Pkg().Path() == "go.uber.org/zap/buffer" {
+				if (d == PN(recv)+".buf" || d == PN(recv)+".jsonEncoder.buf" || d == PN(recv)+".reflectBuf" || d == PN(recv)+".jsonEncoder.reflectBuf") && cf.Pkg() != nil && cf.Pkg().Path() == "go.uber.org/zap/buffer" {
 					switch cf.Name() {
 					case "Len", "Bytes", "Cap", "String":
 					default:
